@@ -864,8 +864,11 @@ class DavSys:
                 if et is None:
                     self.violation("C02", "get-without-etag", "GET 200 without ETag", {"op": op, "name": nm})
                     continue
-                if git and et != '"%s"' % git_blob_id(body):
-                    self.violation("C02", "etag-not-git-blob-id", "ETag %s is not the git blob id of the served bytes" % et, {"op": op, "name": self.canon_name(nm)})
+                if git and self.recording:
+                    # on this tree the ETag of a git-backed resource is the blob id of the served bytes; whether THAT still
+                    # holds is decided over the whole exploration (another consistent scheme is not a violation, an ETag
+                    # that names another version than the one served is)
+                    self.obs.append(("blobid", self.cfg.label, et == '"%s"' % git_blob_id(body), et, self.canon_name(nm), [list(o) for o in self.hist][-6:]))
                 views = dict(a["views"].get(nm, {}))
                 views["listing"] = a["listing"].get(nm)
                 if nm in a["head"]:
@@ -913,38 +916,45 @@ class DavSys:
         return tuple(sorted((self.canon_name(nm), g[2]) for nm, g in a["get"].items() if g[0] == 200))
 
     def check_c08(self, op, info, prev, audit, tcoll):
+        """Every tag view (getctag in both namespaces, sync-token, collection getetag) is judged on its own: the property
+        speaks about each of them, not about their being the same string."""
         kind = op[0]
         for coll in ("cal", "ab", "c2"):
             a = audit[coll]
             if not a["exists"]:
                 continue
             t = a["tags"]
-            vals = {t.get("ctag_cs"), t.get("ctag_dav"), t.get("sync"), (t.get("etag") or "").strip('"') or None}
-            if len(vals) != 1 or None in vals:
-                self.violation("C08", "tag-views-disagree", "getctag/sync-token/getetag of a collection disagree: %r" % t, {"op": op, "coll": coll})
-                continue
-            tag = t["sync"]
+            missing = [v for v in ("ctag_cs", "ctag_dav", "sync", "etag") if not t.get(v)]
+            if missing:
+                self.violation("C08", "tag-view-missing:%s" % "+".join(missing), "a collection does not report %s" % "/".join(missing), {"op": op, "coll": coll})
             if a.get("tags_after") is not None and a["tags_after"] != t:
                 self.violation("C08", "tag-changed-by-read:audit", "the tags read before and after the audit's own reads (PROPFIND of all properties, GET, reports) differ: %r then %r" % (t, a["tags_after"]), {"op": op, "coll": coll})
             state = self.coll_state(coll, a)
             # versioned metadata is part of what a git tag covers
             meta = tuple(sorted(self.model[coll]["props"].items())) if self.model.get(coll) else ()
-            if self.recording:
-                self.obs.append(("tag", self.cfg.label, coll if self.cfg.metadata != "file" else "*", tag, state, meta, a["props"].get("resourcetype") and tuple(a["props"]["resourcetype"])))
             pa = prev[coll]
-            if not pa["exists"]:
-                continue
-            ptag = pa["tags"].get("sync")
-            pstate = self.coll_state(coll, pa)
-            if state != pstate and tag == ptag:
-                self.violation("C08", "tag-unchanged-on-change:%s" % kind, "collection contents changed but its tag did not", {"op": op, "coll": coll})
-            if tag != ptag:
-                if kind == "restart" or kind in ("get", "propfind", "query"):
-                    self.violation("C08", "tag-changed-by-%s" % ("restart" if kind == "restart" else "read"), "tag changed without any write", {"op": op, "coll": coll})
-                elif not info.get("success"):
-                    self.violation("C08", "tag-changed-by-refused:%s" % kind, "a refused/failed request (status %s) changed the tag" % info.get("status"), {"op": op, "coll": coll, "info": info})
-                elif coll != tcoll:
-                    self.violation("C08", "tag-changed-by-other-collection:%s" % kind, "a write to %s changed the tag of %s" % (tcoll, coll), {"op": op})
+            pstate = self.coll_state(coll, pa) if pa["exists"] else None
+            for view in ("ctag_cs", "ctag_dav", "sync", "etag"):
+                tag = t.get(view)
+                if not tag:
+                    continue
+                if self.recording:
+                    self.obs.append(("tag", self.cfg.label + "|" + view, coll if self.cfg.metadata != "file" else "*", tag, state, meta, a["props"].get("resourcetype") and tuple(a["props"]["resourcetype"])))
+                if not pa["exists"]:
+                    continue
+                ptag = pa["tags"].get(view)
+                if not ptag:
+                    continue
+                vl = "" if view == "sync" else ":" + view
+                if state != pstate and tag == ptag:
+                    self.violation("C08", "tag-unchanged-on-change:%s%s" % (kind, vl), "collection contents changed but %s did not" % view, {"op": op, "coll": coll})
+                if tag != ptag:
+                    if kind == "restart" or kind in ("get", "propfind", "query"):
+                        self.violation("C08", "tag-changed-by-%s%s" % ("restart" if kind == "restart" else "read", vl), "%s changed without any write" % view, {"op": op, "coll": coll})
+                    elif not info.get("success"):
+                        self.violation("C08", "tag-changed-by-refused:%s%s" % (kind, vl), "a refused/failed request (status %s) changed %s" % (info.get("status"), view), {"op": op, "coll": coll, "info": info})
+                    elif coll != tcoll:
+                        self.violation("C08", "tag-changed-by-other-collection:%s%s" % (kind, vl), "a write to %s changed %s of %s" % (tcoll, view, coll), {"op": op})
 
     def _members_differ(self, before, after):
         """Model-level member maps differ in more than formatting (a re-serialised copy of the stored calendar is a no-op rewrite)."""
@@ -1166,16 +1176,21 @@ class DavSys:
                     if wrong:
                         kinds.append("wrong-etag-or-status")
                     self.violation("C07", "wrong-change-list:%s:%s" % (label, "+".join(kinds)), "sync report lists %s, expected %s" % (got, expected), {"op": op, "token": tok, "old": old, "new": snap})
-                if newtok != cur_token:
-                    self.violation("C07", "returned-token-not-current:%s" % label, "report returned token %r, the collection's sync-token property is %r" % (newtok, cur_token), {"op": op})
+                if not newtok:
+                    self.violation("C07", "report-without-token:%s" % label, "the report carries no sync-token", {"op": op})
+                elif newtok != cur_token and all(t_ != newtok for (t_, _s) in toks):
+                    # "a token for the current state": it need not be the same string as the DAV:sync-token property, but it
+                    # is now a token this collection issued for THIS state, and every later report from it is checked like
+                    # any other
+                    toks.append((newtok, snap))
                 if rep_i % 2 == 0 and rep_i <= 2:
                     # the same report in other request shapes: no property asked for at all; a property no member has
                     for shape, plist in (("no-props", []), ("unknown-prop", ["{http://example.com/ns}nope"])):
                         st2, ch2, tok2, r2 = self.sync_report(coll, tok, props=plist)
                         want = {k: ("404" if v == "404" else "present") for k, v in expected.items()}
                         got2 = None if ch2 is None else {self.canon_name(k): v for k, v in ch2.items()}
-                        if st2 != 207 or got2 != want or tok2 != cur_token:
-                            self.violation("C07", "request-shape:%s:%s" % (shape, "status-%s" % st2 if st2 != 207 else ("wrong-members" if got2 != want else "wrong-token")),
+                        if st2 != 207 or got2 != want or not tok2:
+                            self.violation("C07", "request-shape:%s:%s" % (shape, "status-%s" % st2 if st2 != 207 else ("wrong-members" if got2 != want else "no-token")),
                                            "sync-collection asking for %s lists %s (token %s), expected %s (token %s)" % (shape, got2, tok2, want, cur_token), {"op": op, "token": tok})
             if cur_token and all(t != cur_token for (t, _) in toks):
                 toks.append((cur_token, snap))
